@@ -15,7 +15,7 @@ static bool ref_unhex(const uint8_t *s, size_t len, std::vector<uint8_t> &out) {
   for (size_t i = 0; i < len; i += 2) { int h = hexval(s[i]), l = hexval(s[i + 1]); if (h < 0 || l < 0) return false; out.push_back((uint8_t)(h * 16 + l)); } return true; }
 
 static void hex_roundtrip_one(const uint8_t *x, size_t n) {
-  C.states++; const std::string si = show_in(x, n);
+  C.states++; const ShowIn si(x, n);
   static const char *delims[3] = {"", " ", ":"};
   for (int up = 0; up < 2; up++) for (int di = 0; di < 3; di++) {
     C.transitions++;
@@ -43,12 +43,12 @@ static void hex_roundtrip_one(const uint8_t *x, size_t n) {
       if (!what.empty()) viol(n == 0 && di == 0 ? "hex-decode-vector-empty-string-throws" : "hex-roundtrip-vec-throws", si + " hex=\"" + ref + "\" delim='" + delim + "' " + what);
       else if (r != n || v.size() != n || (n && memcmp(v.data(), x, n) != 0)) viol("hex-roundtrip-vec", si + " hex=\"" + ref + "\" delim='" + delim + "' ret=" + std::to_string(r)); }
   }
-  if (n >= 2) sample("hex round trip " + si + " upper/lower x delim{'',' ',':'} buf caps{exact,exact-1,0} + vector");
+  if (interesting_sample(x, n)) sample_force("hex round trip " + si + " upper/lower x delim{'',' ',':'} buf caps{exact,exact-1,0} + vector");
 }
 static void hex_hostile_one(const uint8_t *s, size_t len) {
   if (out_of_time()) return;
   C.states++; std::vector<uint8_t> want; const bool valid = ref_unhex(s, len, want);
-  const std::string si = show_in(s, len), str((const char *)s, len);
+  const ShowIn si(s, len); const std::string str((const char *)s, len);
   long caps[4] = {(long)(len / 2), (long)(len / 2) - 1, 0, (long)(len / 2) + 1};
   for (int ci = 0; ci < 4; ci++) { long cap = caps[ci]; if (cap < 0 || (ci == 2 && len / 2 <= 1)) continue;
     C.transitions++; Ex out((size_t)cap); size_t r = 0; bool threw = false;
@@ -87,7 +87,7 @@ static bool ref_urldec(const uint8_t *s, size_t len, std::string &out) {      //
     if (i + 2 >= len) return false; int h = hexval(s[i + 1]), l = hexval(s[i + 2]); if (h < 0 || l < 0) return false; out.push_back((char)(h * 16 + l)); i += 2; }
   return true; }
 static void url_roundtrip_one(const uint8_t *x, size_t n) {
-  C.states++; const std::string si = show_in(x, n), xs((const char *)x, n);
+  C.states++; const ShowIn si(x, n); const std::string xs((const char *)x, n);
   for (int pm = 0; pm < 2; pm++) { C.transitions++; std::string enc, dec, what;
     { Guard g("url.UrlEncode", x, n); enc = UrlEncode(xs, pm != 0); if (g.hit()) viol(generic_san_sig("url-encode"), si + " " + Guard::desc()); }
     size_t esc = 0; bool safe = true; for (unsigned char c : enc) { if (c == '%') esc++; if (c < 0x21 || c > 0x7e) safe = false; }
@@ -99,7 +99,7 @@ static void url_roundtrip_one(const uint8_t *x, size_t n) {
     if (!what.empty()) viol("url-roundtrip-throws", si + " enc=" + enc + " what=" + what);
     else if (dec != xs) viol("url-roundtrip-content", si + " path_mode=" + std::to_string(pm) + " enc=" + enc + " dec=hex:" + hexs(dec.data(), dec.size()));
   }
-  if (n >= 2) sample("url round trip " + si + " path_mode{0,1}");
+  if (interesting_sample(x, n)) sample_force("url round trip " + si + " path_mode{0,1}");
 }
 static void url_hostile_one(const uint8_t *s, size_t len) {
   if (out_of_time()) return;
@@ -113,12 +113,12 @@ static void url_hostile_one(const uint8_t *s, size_t len) {
   if (!valid) outcome(threw ? "url.UrlDecode: invalid/truncated escape -> exception" : "url.UrlDecode: invalid/truncated escape accepted leniently");
 }
 void sweep_url_rt() { for_enc_inputs(url_roundtrip_one); }
-// D_dec(url) = all strings of length 0..2 over 0..255, length 3 over A40 [thorough: all 256 values], [thorough: length 4 over A40],
+// D_dec(url) = all strings of length 0..3 over 0..255 (16 843 009), [thorough: + length 4 over A40 = 2 560 000],
 // + truncations / A20 substitutions of UrlEncode-reference encodings of patterned inputs of length 1..40
 void sweep_url_dec() {
   std::vector<uint8_t> full = alphabet("FULL");
   for (size_t len = 0; len <= 2 && !g_capped; len++) for_all_strings(full, len, g_part, g_nparts, url_hostile_one);
-  if (!g_capped) for_all_strings(alphabet(thorough() ? "FULL" : "A40"), 3, g_part, g_nparts, url_hostile_one);
+  if (!g_capped) for_all_strings(full, 3, g_part, g_nparts, url_hostile_one);
   if (thorough() && !g_capped) for_all_strings(alphabet("A40"), 4, g_part, g_nparts, url_hostile_one);
   for (size_t L = 1; L <= 40 && !g_capped; L++) { if ((int)(L % (size_t)g_nparts) != g_part) continue;
     for (int p = 0; p < kPatterns; p++) { std::vector<uint8_t> v = pattern(p, L); std::string enc;      // reference encoder: escape everything except unreserved
